@@ -67,8 +67,24 @@ def ensure_config_h():
         shutil.rmtree(d, ignore_errors=True)
 
 
+class _Lock:
+    """checks may run concurrently: serialise builds that share a directory"""
+    def __init__(self, path):
+        self.path = path
+    def __enter__(self):
+        import fcntl
+        os.makedirs(os.path.dirname(self.path), exist_ok=True)
+        self.f = open(self.path, "w")
+        fcntl.flock(self.f, fcntl.LOCK_EX)
+    def __exit__(self, *a):
+        import fcntl
+        fcntl.flock(self.f, fcntl.LOCK_UN)
+        self.f.close()
+
+
 def _run_make(mk, target, quiet=True):
-    r = subprocess.run(["make", "-s", "-j16", "-f", mk, target], capture_output=True, text=True)
+    with _Lock(os.path.join(os.path.dirname(mk), ".lock")):
+        r = subprocess.run(["make", "-s", "-j16", "-f", mk, target], capture_output=True, text=True)
     if r.returncode != 0:
         sys.stderr.write(r.stdout[-4000:] + r.stderr[-8000:])
         raise BuildError("build failed: %s %s" % (mk, target))
@@ -129,16 +145,19 @@ def _compile(out, srcs, variant, lib, extra, cxx=False):
     for s in srcs:
         d = os.path.dirname(s)
         deps += [os.path.join(d, f) for f in os.listdir(d) if f.endswith(".h")]
-    if not _newer(out, deps):
+    with _Lock(out + ".lock"):
+        if not _newer(out, deps):
+            return out
+        cc = "clang++" if cxx else "clang"
+        tmp = out + ".tmp%d" % os.getpid()
+        cmd = [cc] + COMMON + VARIANTS[variant] + ["-I" + os.path.join(VERIF, "harness")] + extra + \
+            ["-o", tmp] + list(srcs) + [lib, "-lpthread", "-lm", "-lpng", "-lz"]
+        r = subprocess.run(cmd, capture_output=True, text=True)
+        if r.returncode != 0:
+            sys.stderr.write(r.stderr[-8000:])
+            raise BuildError("compile failed: " + out)
+        os.replace(tmp, out)
         return out
-    cc = "clang++" if cxx else "clang"
-    cmd = [cc] + COMMON + VARIANTS[variant] + ["-I" + os.path.join(VERIF, "harness")] + extra + \
-        ["-o", out] + list(srcs) + [lib, "-lpthread", "-lm", "-lpng", "-lz"]
-    r = subprocess.run(cmd, capture_output=True, text=True)
-    if r.returncode != 0:
-        sys.stderr.write(r.stderr[-8000:])
-        raise BuildError("compile failed: " + out)
-    return out
 
 
 def build_driver(name, variant="asan", extra=None, srcs=None, cxx=False):
